@@ -1,5 +1,12 @@
-(* C06 - kill() pre-empts the mailbox and never blocks.  Property theorems only. *)
-From RS Require Import Tactics KillStep.
+(* C06 - kill() pre-empts the mailbox and never blocks.  Property theorems only.
+   kill is one label that is enabled in every state and never fails (C06_kill_total); a pass of the
+   loop that begins with the signal buffered takes the termination branch and enters on_stop(true)
+   (C06_pass_after_kill, which uses the select's generated bias and order); and over whole runs, with
+   any number of queued messages and whatever anybody does afterwards, at most one further handler
+   is entered once the signal is buffered - none unless the loop was already past the termination
+   branch of the pass in progress (C06_at_most_one_more_handler).  An actor that is running on_stop
+   or has ended never enters a handler again (C06_budget with n = 0). *)
+From RS Require Import Tactics KillStep Delivery KillBudget.
 
 Theorem C06_kill_total : forall s a x,
   get_actor s a = Some x -> 0 < a_ext x ->
@@ -20,7 +27,39 @@ Theorem C06_pass_after_kill : forall s a x k ro,
     s_ops s' = s_ops s.
 Proof. exact pass_after_kill. Qed.
 
+(* the number of handler entries still possible is bounded by the state's budget, in every continuation *)
+Theorem C06_budget : forall f ls ls2 a x n,
+  get_actor (run f ls) a = Some x -> kbudget x = Some n ->
+  exists y m, get_actor (run f (ls ++ ls2)) a = Some y /\ kbudget y = Some m /\
+              nh (run f (ls ++ ls2)) a + m <= nh (run f ls) a + n.
+Proof. exact run_budget. Qed.
+
+Theorem C06_at_most_one_more_handler : forall f ls ls2 a x,
+  get_actor (run f ls) a = Some x -> a_term x = true ->
+  nh (run f (ls ++ ls2)) a <= nh (run f ls) a + 1 /\
+  ((forall rest, a_pc x <> PSel (BMail :: rest)) -> nh (run f (ls ++ ls2)) a <= nh (run f ls) a).
+Proof. exact run_after_kill_at_most_one. Qed.
+
+(* non-vacuity: capacity 3, the handler of message 1 is running, 2 and 3 are queued, then kill:
+   however the run continues, no further handler is entered and on_stop(true) follows *)
+Definition c06_example : list label :=
+  [LSpawn 3; AStartDone 0 HOk; LBegin 1 KTell 0 None None FTell; LBegin 2 KTell 0 None None FTell;
+   LBegin 3 KTell 0 None None FTell; APassBegin 0 0; APoll 0 RPending; APoll 0 RPending; LKill 0].
+Definition c06_rest : list label :=
+  [AHandleDone 0 HOk; APassBegin 0 0; APoll 0 RPending; APoll 0 RPending; APoll 0 RPending; AStopDone 0 HOk].
+Example C06_example_run :
+  option_map (fun x => (a_term x, a_pc x, a_mbox x)) (get_actor (run no_feats c06_example) 0)
+    = Some (true, PHandle 1 KTell, [(2, KTell); (3, KTell)]) /\
+  nh (run no_feats c06_example) 0 = 1 /\ nh (run no_feats (c06_example ++ c06_rest)) 0 = 1 /\
+  option_map a_pc (get_actor (run no_feats (c06_example ++ c06_rest)) 0)
+    = Some (PDone (Completed [HvStop true; HvHandle 1; HvStart] true)).
+Proof. vm_compute. repeat split; reflexivity. Qed.
+
 Check C06_kill_total.
 Check C06_pass_after_kill.
+Check C06_budget. Check C06_at_most_one_more_handler.
+Print Assumptions C06_budget.
+Print Assumptions C06_at_most_one_more_handler.
+Print Assumptions C06_example_run.
 Print Assumptions C06_kill_total.
 Print Assumptions C06_pass_after_kill.
